@@ -1,5 +1,5 @@
 SPEC = [
-    ("fetch_max_name", "src/main.cpp", r"auto sanitize_filename = \[\]\(const std::string& candidate\).*?kMaxSuggestedNameLength\s*=\s*([0-9]+)\s*;", "int"),
-    ("store_max_name", "src/core/Node.cpp", r"auto sanitize_filename = \[\]\(std::string value\).*?kMaxSuggestedNameLength\s*=\s*([0-9]+)\s*;", "int"),
+    ("fetch_max_name", "src/main.cpp", r"if\s*\(\s*treat_as_directory\s*\)\s*\{\s*std::string inferred_name;.*?kMaxSuggestedNameLength\s*=\s*([0-9]+)\s*;", "int"),
+    ("store_max_name", "src/core/Node.cpp", r"protocol::Manifest Node::store_chunk\(.*?kMaxSuggestedNameLength\s*=\s*([0-9]+)\s*;", "int"),
     ("hint_max_name", "src/security/StoreProof.cpp", r"sanitize_filename_hint.*?kMaxFilenameLength\s*=\s*([0-9]+)\s*;", "int"),
 ]
